@@ -28,12 +28,23 @@ LEVEL_TEXT = ("Proof: the exact half-open semantics (bin k iff a0+k*h <= v < a0+
               "the band (1+13u)((j+1)|a0|eps+|v|eps)+6u*j*h+2^-1073*h below the regular position (inside the oracle's band), hence "
               "the model's answer is always in the allowed set (bin1dF_mem_allowed); bin1dF_safe (away from the band the float answer "
               "is the exact regular-grid answer); every edge lands in its own bin; discretize = edge of the bin, rejects exactly the "
-              "out-of-range values, is idempotent. Tied to the code by correspondence (bit-exact on every run).")
+              "out-of-range values, is idempotent. Tied to the code by correspondence (bit-exact on every run). Round 4: (i) `num_decimals` of "
+              "cleaner_range is computed by the model from its own repr (DecimalText.reprValue, proved to read back): numDecimals_denotes (repr(x) = z/10^d "
+              "with d = num_decimals(x), every x), float_is_nearest_of_its_repr, and cleanerRange_repr_exact / cleanerRange_repr_bins_ok: 'the generators "
+              "return exactly the floats closest to the decimal grid start + k*step' for the function with NO outside input, start and step read as the "
+              "decimals Python prints; (ii) the lower side 'a value at or above an edge may not go below it' for EVERY point tolerance: "
+              "bin1dF_gen_never_below with instances for the tol= override (get_magnitude_index(mags, tol), magnitude_counts(tol=)) and for integer points on "
+              "float64 edges, and (iii) the complete case analysis for every point tolerance (bin1dF_gen_cases) with bin1dF_tol_mem_allowed / "
+              "bin1dF_intpts_mem_allowed / magCfg_tol_mem_allowed: for `tol=t` and for int64 points on float64 edges the model's answer is ALWAYS in the "
+              "set the property allows (same strength as bin1dF_mem_allowed for the default tolerance).")
 LEVEL_NOTE = ("Float theorems are about float64 points and float64 edges (default tolerance; the driver evaluates their hypotheses on "
-              "every float64 model case and the evidence reports the covered share); float32 / int64 / tol= variants are "
-              "modelled bit-exactly and covered by correspondence and the direct oracle, not by general theorems. The number of "
-              "decimals of repr(start), repr(h) is an input of the cleaner_range model. NaN, +-inf, |ints| >= 2^53 are outside "
-              "the model; cleaner_range's fallback path (step that is not a short decimal) is only observed.")
+              "every float64 model case and the evidence reports the covered share); tol= and int64-on-float64 have both sides of the band by theorem "
+              "(C02_Tol.lean, under the same grid hypotheses), int64 on int64 is exact by theorem; float32 is modelled bit-exactly and covered by "
+              "correspondence and the direct oracle, not by general theorems. The number of decimals of repr(start), repr(h) is computed by the model "
+              "(round 4; compared with the implementation's nested helper and with Decimal(repr(x)) on every run). NaN, +-inf, |ints| >= 2^53 are outside "
+              "the model. cleaner_range's fallback path (step that is not a short decimal: 16+ decimals) is modelled bit-exactly and generated (oracle: the "
+              "grid start + k*h to 1e-12 relative, exact length for an end on the grid); no theorem covers it, and the class in which it rounds the START to a "
+              "multiple of the step is a genuine-defect candidate observed and counted, not enforced (AWAITING_DECISION_CLEANER).")
 DESIGN_REF = "DESIGN.md §4 C02"
 TECHNIQUE = "Lean 4 kernel-checked theorems (exact layer on Rat, Soft64 layer for the float formula) + differential correspondence"
 
@@ -71,12 +82,23 @@ THEOREMS = [
     # Properties/C02_Tol.lean: the band of the `tol=` override and of integer points on float64 edges
     "Bin1d.quotF_cfgTol", "Bin1d.quotF_cfgIntPts", "Bin1d.bin1dCore_gen", "Bin1d.bin1dF_gen_upper", "Bin1d.bin1dF_tol_upper",
     "Bin1d.bin1dF_intpts_upper", "Bin1d.magCfg_tol_eq",
+    # round 4: the lower side for every point tolerance
+    "Bin1d.qG_lower", "Bin1d.qG_nonneg", "Bin1d.bin1dF_gen_never_below", "Bin1d.bin1dF_tol_never_below",
+    "Bin1d.bin1dF_intpts_never_below", "Bin1d.magCfg_tol_never_below",
+    # Properties/C02_TolCases.lean (round 4): the complete case analysis and mem_allowed for every point tolerance
+    "Bin1d.gband_lt", "Bin1d.bin1dF_gen_cases", "Bin1d.le_bandWidth_gen", "Bin1d.bin1dF_gen_mem_allowed",
+    "Bin1d.bin1dF_tol_mem_allowed", "Bin1d.bin1dF_intpts_mem_allowed", "Bin1d.magCfg_tol_mem_allowed",
+    # Properties/C02_Repr.lean (round 4): num_decimals inside the model
+    "Bin1d.numDecimals_denotes", "Bin1d.float_is_nearest_of_its_repr", "Bin1d.cleanerRange_repr_exact",
+    "Bin1d.cleanerRange_repr_bins_ok",
 ]
 TRUSTED = ["Lean 4.33 kernel", "axioms: propext, Classical.choice, Quot.sound at most",
            "Soft64.fl64/fl32 is IEEE-754 round-to-nearest-even and numpy + - * / floor on float64/float32 are that arithmetic "
            "(validated bit-exactly on every run: primitives and the whole bin1d_vec formula)",
            "numpy dtype promotion (NEP 50) as transcribed in Model/Bin1d.lean (validated by the bit-exact comparison)",
-           "Python repr(float) is the shortest round-trip decimal (number of decimals is a model input)",
+           "DecimalText.reprValue is the value of Python's repr(float) (shortest round-trip decimal; proved to read back; compared with "
+           "Decimal(repr(x)) on ~430 / 4000 values per run) and CPython switches to exponent notation at 1e16 / below 1e-4 "
+           "(ReprDec.numDecimals; compared with the implementation's nested num_decimals on the same values)",
            "numpy.arange length/fill semantics as transcribed (validated by correspondence)",
            "harness/c02.py generators, the Fraction oracle and the band rule; driver parsing (Proto.lean)"]
 RULE = ("grids: decimal grids with 1-4 decimals (|start| << step, ~ step, >> step, negative, zero-crossing), library-generated "
@@ -90,7 +112,11 @@ RULE = ("grids: decimal grids with 1-4 decimals (|start| << step, ~ step, >> ste
         "for float64 / list / float32 / int64 magnitudes, create_space_magnitude_region, on the CSEP grid, magnitude_bins grids and random decimal grids with "
         "tol in {None, 1e-5, 1e-9, 0.0}, magnitudes on and around edges and 0.5 / 2.5 / 3 tolerances below them; judged by the exact oracle, not against bin1d_vec; sessions of 5-10 calls on ONE shared edge array "
         "(region magnitudes of two catalogs and a forecast) and one value array with in-place edits and re-binding of the edges by the caller, every result judged against the "
-        "edges in force at that moment, inputs snapshotted; NaN / -inf observed; more than 2^16 events in one bin; more than 2^16 edges")
+        "edges in force at that moment, inputs snapshotted; NaN / -inf observed; more than 2^16 events in one bin; more than 2^16 edges; "
+        "cleaner_range / magnitude_bins: decimal arguments with 0-17 decimals (exact nearest-double oracle inside |S|+(n+1)D <= 2^50, else to rounding), "
+        "steps that are not short decimals (1/3 ... 1/300, 0.1+0.2, float differences, 16-digit decimals, random floats) with starts that are multiples of "
+        "the step / fine decimals / integers (grid to 1e-12, exact length), all through the model with no decimal input (c02_cleaner_auto, both paths); "
+        "num_decimals itself on ~430 values per run (decimals, integers around 1e16, values below 1e-4, float noise, random bit patterns)")
 
 EPS = {"f64": Fraction(1, 2 ** 52), "f32": Fraction(1, 2 ** 23), "i64": Fraction(0)}
 NPDT = {"f64": numpy.float64, "f32": numpy.float32, "i64": numpy.int64}
@@ -282,7 +308,7 @@ def check_values(ctx, g, values, tol, rc, tag, n_model):
                            f"exception {type(e).__name__}: {e} on an increasing equally spaced grid")
         return
     out = numpy.asarray(out)
-    if out.shape != values.shape or out.dtype != numpy.int64:
+    if out.shape != values.shape or out.dtype.kind not in "iu":      # an integer index per value (int64 today; the width is not the property's)
         run.oracle_failure(dict(case0, p=[val_repr(pd, x) for x in flat[:8]]),
                            f"result shape/dtype {out.shape}/{out.dtype} for input shape {values.shape}")
         return
@@ -457,18 +483,28 @@ def flush(ctx):
             else:
                 run.mismatch(case, str(impl)[:300], str(mod)[:300])
         elif item[0] == "cleaner":
-            _, qi, case, impl = item
+            _, qi, case, impl, oracle_ok = item
             res = outs[qi]
-            if res == "fallback":
-                run.count("cleaner_model_fallback")
+            toks = res.split(" ")
+            if len(toks) != 3:
+                run.mismatch(case, "c02_cleaner_auto", res[:200])
                 continue
-            mod = [] if res == "-" else [Fraction(t) for t in res.split(",")]
-            if mod != impl:
+            path = toks[1]
+            run.count("cleaner_model_path_" + path)
+            mod = [] if toks[2] == "-" else [Fraction(t) for t in toks[2].split(",")]
+            ctx.bit_total += 1
+            if mod == impl:
+                ctx.bitexact += 1
+            elif oracle_ok:
+                # the implementation's grid satisfies the property's oracle (exactly the decimal grid / the grid to rounding): a
+                # difference to the model — which transcribes the CURRENT code, the awaiting-decision displacement of the fallback
+                # path included — is a loss of bit-exactness, never a violation (a tree that repairs the fallback must stay green)
+                run.count("cleaner: differs from the model with a property-correct result (recorded)")
+                if len(ctx.bit_diff) < 5:
+                    ctx.bit_diff.append(dict(case, impl=[str(x) for x in impl[:3]] + [len(impl)], model=[str(x) for x in mod[:3]] + [len(mod)]))
+            else:
                 run.mismatch(case, [str(x) for x in impl[:6]] + [f"len={len(impl)}"],
                              [str(x) for x in mod[:6]] + [f"len={len(mod)}"])
-            else:
-                ctx.bitexact += 1
-            ctx.bit_total += 1
     ctx.pending = []
     ctx.drv = Driver()
 
@@ -524,17 +560,20 @@ def check_discretize(ctx, g, values, rc, tag, model=True):
         out, impl = None, exc_tag(e)
     if impl is not None:
         run.count("discretize_raised_" + impl)
-        if impl != "csepexception":
-            fail(f"discretize raised {impl} on an increasing equally spaced grid")
-        elif not may:
-            fail("discretize raised CSEPException although every value lies inside the bins")
+        if not may:
+            fail(f"discretize raised {impl} although every value lies inside the bins")
+        elif impl != "csepexception":
+            # some value is (or may be) out of range: it was reported as such — with another exception class than today's
+            # CSEPException, which the property does not fix
+            run.count("discretize: out-of-range value rejected with " + impl)
+            impl = "csepexception"
     else:
         out = numpy.asarray(out)
         if must:
             bad = next(val_repr(pd, x) for x, al in zip(flat, als) if al == {-1})
             fail(f"discretize accepted the out-of-range value {bad}")
-        elif out.shape != values.shape or out.dtype != g.bins.dtype:
-            fail(f"discretize returned shape/dtype {out.shape}/{out.dtype} for data {values.shape}, edges {g.bins.dtype}")
+        elif out.shape != values.shape:
+            fail(f"discretize returned shape {out.shape} for data of shape {values.shape}")
         else:
             of = out.ravel()
             for x, y, al in zip(flat, of, als):
@@ -610,12 +649,14 @@ def discretize_arg_checks(ctx):
         run.evaluations += 1
         d.ask(f"c02_discretize f64 f64 0 {flist(bins)} {flist(data)}")
         case = dict(kind="disc-args", bins=[repr(x) for x in bins], p=[repr(x) for x in data])
-        if impl != expect:
-            run.oracle_failure(case, f"discretize with {'empty' if not bins else 'decreasing'} edges: {impl}, ValueError expected")
-        ctx.pending_args = getattr(ctx, "pending_args", []) + [(case, impl)]
-    for (case, impl), res in zip(ctx.pending_args, d.run()):
-        if res != impl:
-            run.mismatch(case, impl, res)
+        # empty / decreasing edges are OUTSIDE the property ("given increasing, equally spaced bin edges"): the current code raises
+        # ValueError; any rejection — or a tree that copes with them — is accepted. Observed, compared with the model only when the
+        # tree behaves like the current code.
+        run.count("discretize-args:" + ("as-documented" if impl == expect else f"other ({impl})"))
+        ctx.pending_args = getattr(ctx, "pending_args", []) + [(case, impl, expect)]
+    for (case, impl, expect), res in zip(ctx.pending_args, d.run()):
+        if impl == expect and res != impl:
+            raise RuntimeError(f"model of discretize's argument checks answers {res!r}, the code {impl!r} on {case}")
     ctx.pending_args = []
     try:
         out = impl_discretize([1.5], [1.0], False)
@@ -739,7 +780,46 @@ def values_around(g, rng, idxs, pd, dense):
     return numpy.concatenate(out)
 
 
+def guarded(ctx, case, fn, *a, **kw):
+    """run one check; an exception of the HARNESS caused by a value the implementation returned (ill-typed, ill-shaped, out of range)
+    is a failing case, never a crash. RuntimeError (harness self-check) and exceptions raised inside pyCSEP (reported by core.py as
+    impl-exception) pass through."""
+    try:
+        return fn(*a, **kw)
+    except (RuntimeError, KeyboardInterrupt, MemoryError):
+        raise
+    except Exception as e:
+        import traceback
+        from .core import REPO
+        fr = traceback.extract_tb(e.__traceback__)
+        if fr and os.path.realpath(fr[-1].filename).startswith(os.path.realpath(REPO) + os.sep):
+            raise
+        here = [f for f in fr if os.path.basename(f.filename) in ("c02.py", "c02_calls.py")]
+        where = f"{os.path.basename(here[-1].filename)}:{here[-1].lineno}" if here else "?"
+        ctx.run.oracle_failure(dict(case, what="unusable-answer"),
+                               f"the implementation returned a value the check could not use ({type(e).__name__}: {str(e)[:160]} at {where})")
+
+
 def run_grid(ctx, g, modes=(False, True), pds=("f64",), tol=None, n_model=120, tag="gen", disc=True):
+    """guard: a value RETURNED by the implementation that the harness cannot use (ill-typed, ill-shaped, out of range) is a failing
+    case of this grid, never a harness crash (RuntimeError = harness self-check stays a crash)"""
+    try:
+        return _run_grid(ctx, g, modes=modes, pds=pds, tol=tol, n_model=n_model, tag=tag, disc=disc)
+    except (RuntimeError, KeyboardInterrupt, MemoryError):
+        raise
+    except Exception as e:
+        import traceback
+        from .core import REPO
+        fr = traceback.extract_tb(e.__traceback__)
+        if fr and os.path.realpath(fr[-1].filename).startswith(os.path.realpath(REPO) + os.sep):
+            raise           # raised INSIDE pyCSEP: core.py reports it (kind impl-exception)
+        here = [f for f in fr if os.path.basename(f.filename) in ("c02.py", "c02_calls.py")]
+        where = f"{os.path.basename(here[-1].filename)}:{here[-1].lineno}" if here else "?"
+        ctx.run.oracle_failure(dict(kind="grid", grid=g.spec, what="unusable-answer"),
+                               f"the implementation returned a value the check could not use ({type(e).__name__}: {str(e)[:160]} at {where})")
+
+
+def _run_grid(ctx, g, modes=(False, True), pds=("f64",), tol=None, n_model=120, tag="gen", disc=True):
     run, rng = ctx.run, ctx.rng
     n = g.n
     if n == 0:
@@ -790,7 +870,7 @@ def _scalar_checks(ctx, g):
             for form, arg in (("pyfloat", v), ("np64", numpy.float64(v)), ("0d", numpy.array(v)), ("list", [v]),
                               ("nested", [[v, v], [v, v]])):
                 o = numpy.asarray(impl_bin1d(arg, g.bins, None, rc))
-                ok = o.dtype == numpy.int64 and numpy.all(o == r) and \
+                ok = o.dtype.kind in "iu" and numpy.all(o == r) and \
                     o.shape == numpy.asarray(arg).shape
                 run.evaluations += 1
                 run.count("scalar_forms")
@@ -809,8 +889,86 @@ def _scalar_checks(ctx, g):
 
 # ----------------------------------------------------------------------------- cleaner_range
 def num_decimals(x):
+    """the documented rule (calc.py:237-239): decimal places of the shortest decimal string that reads back as x"""
     import decimal
     return max(0, -decimal.Decimal(repr(float(x))).as_tuple().exponent)
+
+
+def impl_num_decimals():
+    """the nested helper `num_decimals` of the implementation's `cleaner_range`, rebuilt from its code object (so that the
+    model's `ReprDec.numDecimals` is compared with the code under test, not with a copy); None when the helper no longer
+    exists under that name (a refactor: the end-to-end comparison `c02_cleaner_auto` still ties model and code)"""
+    import types
+    from csep.utils import calc
+    try:
+        for c in calc.cleaner_range.__code__.co_consts:
+            if isinstance(c, types.CodeType) and c.co_name == "num_decimals" and not c.co_freevars:
+                return types.FunctionType(c, calc.__dict__)
+    except Exception:
+        pass
+    return None
+
+
+def check_numdec(ctx, n):
+    """correspondence of `num_decimals`: the model computes it from its own `repr` (DecimalText.reprValue); compared on decimals
+    with 0-17 places, integers around 10^15..10^17 (the switch to exponent notation), tiny values (1e-5, 1.5e-7: exponent
+    notation below 1e-4), float noise (0.1+0.2, differences of decimals), random bit patterns"""
+    import struct
+    run, rng = ctx.run, ctx.rng
+    f = impl_num_decimals()
+    vals = [0.0, 1.0, -1.0, 100.0, 1e15, 1e16, 9999999999999998.0, 1e17, 1e22, 1e23, 1.5e-7, 1e-5, 1e-4, 9.999e-5, 0.001,
+            0.1 + 0.2, -9.5 - -9.6, 1 / 3, 1 / 30, 1 / 35, 0.07, 5.95, 312.748, 1.7976931348623157e308, 2.2250738585072014e-308,
+            123456789012345680.0, 0.30000000000000004, 4.35, 2.675, 1e-7, 123456.789e3]
+    for _ in range(n):
+        r = rng.random()
+        if r < 0.5:
+            vals.append(round(rng.uniform(-2000, 2000), rng.choice([0, 1, 1, 2, 2, 3, 4, 6, 9, 12, 15])))
+        elif r < 0.6:
+            vals.append(float(rng.randint(10 ** 14, 10 ** 18)))
+        elif r < 0.7:
+            vals.append(rng.uniform(-1, 1) * 10.0 ** -rng.randint(3, 12))
+        elif r < 0.8:
+            vals.append(rng.randint(-500, 500) / rng.choice([3, 7, 30, 35, 60, 64, 70, 128, 300, 1024]))
+        else:
+            vals.append(struct.unpack("d", struct.pack("Q", rng.randrange(2 ** 63)))[0] * rng.choice([1, -1]))
+    vals = [v for v in vals if v == v and abs(v) != float("inf") and (v == 0 or abs(v) >= 2.2250738585072014e-308)]
+    d = Driver()
+    d.ask("c02_numdec " + ",".join(frac(v) for v in vals))
+    d.ask("c02_reprval " + ",".join(frac(v) for v in vals))
+    nd, rv = d.run()
+    nd = [int(t) for t in nd.split(",")]
+    rv = [Fraction(t) for t in rv.split(",")]
+    import decimal
+    for v, a, r in zip(vals, nd, rv):
+        run.evaluations += 1
+        run.count("num_decimals_cases")
+        doc = num_decimals(v)
+        case = dict(kind="numdec", x=repr(v))
+        # the model's repr is Python's repr (trusted-base check, was a "Python runtime fact": now computed and compared)
+        if r != Fraction(decimal.Decimal(repr(v))):
+            raise RuntimeError(f"model reprValue({v!r}) = {r} differs from Decimal(repr(x))")
+        if a != doc:
+            raise RuntimeError(f"model numDecimals({v!r}) = {a}, the documented rule gives {doc}")
+        if f is not None:
+            try:
+                im = int(f(v))
+            except Exception as e:
+                # a PRIVATE helper driven directly, on values the public generators never hand it: recorded, never a verdict
+                run.count("num_decimals_helper_raised:" + type(e).__name__)
+                continue
+            if im != a:
+                # the helper feeds only cleaner_range; whether a different count breaks the property is decided by the
+                # end-to-end oracle of cleaner_range — recorded here
+                run.count("num_decimals_differs_from_model")
+                if len(ctx.bit_diff) < 5:
+                    ctx.bit_diff.append(dict(case, impl=im, model=a))
+    run.extra["num_decimals_helper_found"] = f is not None
+    if f is None:
+        # the nested (private) helper is gone or renamed on the tree under test: not a verdict. Its effect is covered through the
+        # PUBLIC generators (cleaner_range / magnitude_bins / every region constructor: exact decimal-grid oracle + `c02_cleaner_auto`)
+        run.count("helper-missing:num_decimals")
+        run.assumptions.append("helper-missing: the nested helper `num_decimals` of cleaner_range was not found on the tree under test; "
+                               "its value is checked only through the public cleaner_range / magnitude_bins results")
 
 
 def check_cleaner(ctx, S, D, m, cnt, off, fn="cleaner_range", tag="gen", asint=False):
@@ -819,6 +977,11 @@ def check_cleaner(ctx, S, D, m, cnt, off, fn="cleaner_range", tag="gen", asint=F
     run = ctx.run
     sc = 10 ** m
     start, h, end = float(Fraction(S, sc)), float(Fraction(D, sc)), float(Fraction(S + cnt * D + off, sc))
+    if abs(S) + (cnt + 1) * D > 2 ** 50 or m > 22:
+        # beyond the integer grid on which `cleanerRange_exact` is proved (and on which "exactly the nearest doubles" can hold:
+        # near 2^52 scaled values are no longer integers): the grid to rounding
+        check_cleaner_float(ctx, start, end, h, "beyond-2^50")
+        return
     if asint and m == 0:
         start, end = int(start), int(end)
     case = dict(kind="cleaner", S=S, D=D, m=m, cnt=cnt, off=off, fn=fn, tag=tag, asint=asint,
@@ -843,16 +1006,18 @@ def check_cleaner(ctx, S, D, m, cnt, off, fn="cleaner_range", tag="gen", asint=F
         run.oracle_failure(case, f"{case['call']}: length {len(out)} (expected {len(expect)}), first element off the "
                                  f"decimal grid at k={bad}: {out[bad]!r} vs {expect[bad]!r}" if bad is not None else
                            f"{case['call']}: length {len(out)} expected {len(expect)}")
-    dec = max(num_decimals(start), num_decimals(h))
-    qi = ctx.drv.ask(f"c02_cleaner {frac(float(start))} {frac(float(end))} {frac(h)} {dec}")
-    ctx.pending.append(("cleaner", qi, case, [Fraction(float(x)) for x in out]))
+    # round 4: the model computes num_decimals itself (no decimal input) and covers both paths
+    qi = ctx.drv.ask(f"c02_cleaner_auto {frac(float(start))} {frac(float(end))} {frac(h)}")
+    ctx.pending.append(("cleaner", qi, case, [Fraction(float(x)) for x in out], bool(ok)))
     if len(ctx.pending) >= 40:
         flush(ctx)
 
 
 def rand_cleaner(ctx, rng, nmax):
-    m = rng.choice([0, 1, 1, 2, 2, 3, 4, 5, 6])
+    m = rng.choice([0, 1, 1, 2, 2, 3, 4, 5, 6, 6, 8, 10, 12, 15, 16, 17])
     D = rng.choice([1, 2, 5, 7, 10, 25, 100]) if rng.random() < 0.5 else rng.randint(1, 10 ** rng.randint(1, 4))
+    if m > 6 and rng.random() < 0.7:      # a step that really has m decimals
+        D = rng.randint(10 ** (m - 3), 10 ** (m - 1))
     regime = rng.choice(["small", "similar", "large", "neg", "cross"])
     cnt = min(nmax, rng.choice([0, 1, 2, 3, 7, 10, 33, 65, 100, 360, 1800, 3600, 20000]))
     if regime == "small":
@@ -872,21 +1037,96 @@ def rand_cleaner(ctx, rng, nmax):
                   asint=(m == 0 and rng.random() < 0.5))
 
 
-def cleaner_fallback_probe(ctx, rng):
-    """steps that are not short decimals take the fallback path: only observed (monotone, first element = start)"""
-    from csep.utils.calc import cleaner_range
+# Input class on which the unchanged code misbehaves and whose membership in the property is for the integrator to decide
+# (genuine-defect candidate, witness + proposed patch in notes/C02.md): observed and counted, not enforced.
+AWAITING_DECISION_CLEANER = [
+    "cleaner_range fallback path (step with 16+ decimals, i.e. not a short decimal) with 10**num_decimals(start) < 1/step and "
+    "start not a multiple of the step: `scale = 1/h` rounds the START to a multiple of the step — "
+    "cleaner_range(5.0, 6.0, 0.0712345678901234)[0] == 4.986419753086419, cleaner_range(0.3, 0.4, 1/35)[0] == 0.2857142857142857",
+]
+
+
+def check_cleaner_float(ctx, start, end, h, tag):
+    """ANY float arguments — in particular steps that are not short decimals (1/3, 1/30, 1/35, the noise of a float
+    difference, 16-17 digit decimals: the fallback path of cleaner_range). The property's reading here: the result is the
+    grid start + k*h (k = 0 .. while start + k*h <= end + h/2) to rounding (1e-12 relative to the largest coordinate).
+    Correspondence: `c02_cleaner_auto` (both paths modelled, bit-exact recorded)."""
+    import math
     run = ctx.run
-    for _ in range(5):
-        start = round(rng.uniform(-5, 5), 1)
-        h = rng.uniform(0.01, 1.0)
-        end = start + 10 * h
-        try:
-            out = cleaner_range(start, end, h)
-            run.count("cleaner_fallback_observed")
-            if not (numpy.all(numpy.diff(out) > 0) and abs(out[0] - start) <= 1e-9):
-                run.count("cleaner_fallback_nonmonotone")
-        except Exception:
-            run.count("cleaner_fallback_exception")
+    fn = ctx.rng.choice(["cleaner_range", "magnitude_bins"])
+    case = dict(kind="cleaner-float", start=repr(start), end=repr(end), h=repr(h), fn=fn, tag=tag,
+                call=f"{fn}({start!r}, {end!r}, {h!r})")
+    try:
+        if fn == "cleaner_range":
+            from csep.utils.calc import cleaner_range as f
+        else:
+            from csep.core.regions import magnitude_bins as f
+        out = numpy.asarray(f(start, end, h))
+    except Exception as e:
+        run.oracle_failure(case, f"exception {type(e).__name__}: {e}")
+        return
+    run.case(case, ("cleaner-float", repr(start), repr(end), repr(h)))
+    run.count("cleaner_float_cases")
+    S, E, H = Fraction(float(start)), Fraction(float(end)), Fraction(float(h))
+    q = (E - S) / H + Fraction(1, 2)
+    lens = {max(0, math.ceil(q))}
+    if abs(q - round(q)) < Fraction(1, 10 ** 9):
+        lens |= {max(0, int(round(q))), max(0, int(round(q)) + 1)}
+    tol = Fraction(1, 10 ** 12) * max(abs(S), abs(E), H)
+    bad = None
+    if out.dtype != numpy.float64 or out.ndim != 1:
+        bad = f"dtype {out.dtype}, ndim {out.ndim}"
+    elif len(out) not in lens:
+        bad = f"length {len(out)}, expected {sorted(lens)}"
+    else:
+        for k, x in enumerate(out):
+            if abs(Fraction(float(x)) - (S + k * H)) > tol:
+                bad = f"element {k} is {float(x)!r}, the grid start + k*h has {float(S + k * H)!r}"
+                break
+    if bad:
+        # the awaiting-decision class: fallback path with scale = 1/h
+        dec_s, dec_h = num_decimals(start), num_decimals(h)
+        main = 10 ** max(dec_s, dec_h) * max(abs(float(start)), abs(float(end))) < 2 ** 52
+        displaced = (not main) and 10 ** dec_s < 1 / float(h) and (S / H).denominator != 1
+        if displaced:
+            run.count("awaiting-decision: cleaner_range fallback rounds the start to a multiple of the step")
+            run.extra.setdefault("awaiting_decision_witness_cleaner", f"{case['call']} -> {[float(v) for v in out[:3]]!r}")
+        else:
+            run.oracle_failure(case, f"{case['call']}: {bad}")
+    qi = ctx.drv.ask(f"c02_cleaner_auto {frac(float(start))} {frac(float(end))} {frac(float(h))}")
+    ctx.pending.append(("cleaner", qi, case, [Fraction(float(x)) for x in out], not bad))
+    if len(ctx.pending) >= 40:
+        flush(ctx)
+
+
+NOISY_STEPS = [1 / 3, 1 / 6, 1 / 7, 2 / 3, 1 / 30, 1 / 35, 1 / 60, 1 / 70, 1 / 300, 0.1 / 3, 0.1 + 0.2, -9.5 - -9.6, 1.1 - 1.0,
+               0.0712345678901234, 0.7123456789012345, 1.0000000000000002, 0.1234567890123456]
+
+
+def rand_cleaner_float(ctx, rng):
+    """the argument classes of `check_cleaner_float`; `displaced` marks the awaiting-decision class (generated on purpose,
+    counted, not enforced)"""
+    import math
+    h = rng.choice(NOISY_STEPS) if rng.random() < 0.7 else rng.uniform(0.01, 1.0)
+    cnt = rng.choice([0, 1, 2, 5, 17, 100, 1000])
+    r = rng.random()
+    if r < 0.35:                                   # start a multiple of the step (float product)
+        start = rng.randint(-400, 400) * h
+    elif r < 0.7:                                  # a short decimal fine enough for the step (10**dec >= 1/h)
+        dec = max(1, math.ceil(-math.log10(h)) + rng.choice([0, 1, 2]))
+        start = round(rng.uniform(-300, 300), dec)
+        if 10 ** num_decimals(start) < 1 / h:      # trailing zeros dropped by repr: take a multiple instead
+            start = rng.randint(-400, 400) * h
+    elif r < 0.85:                                 # an integer or one-decimal start with a coarse step (1/h < 10)
+        h = rng.choice([1 / 3, 1 / 6, 1 / 7, 2 / 3, 0.7123456789012345, 1.0000000000000002, 0.30000000000000004])
+        start = rng.choice([float(rng.randint(-50, 50)), round(rng.uniform(-50, 50), 1)])
+    else:                                          # awaiting-decision class: coarse start, fine noisy step
+        h = rng.choice([1 / 30, 1 / 35, 1 / 60, 1 / 70, 0.0712345678901234])
+        start = round(rng.uniform(-20, 20), 1)
+    # `end` on the grid (start + cnt*h as the caller computes it in floats): for an end OFF the grid the fallback path rounds
+    # `end` to 1/scale first, which can be coarser than h/2, so the property fixes no count there (not generated)
+    end = start + cnt * h
+    check_cleaner_float(ctx, float(start), float(end), float(h), "float-step")
 
 
 # ----------------------------------------------------------------------------- API level
@@ -933,29 +1173,37 @@ def _api_checks_grid(ctx, spec, discretize, CSEPException, CSEPCatalog, GriddedF
             discretize(numpy.array([g.e64[0] - 1.0]), g.bins)
             run.oracle_failure(dict(kind="discretize", grid=spec, p=[repr(float(g.e64[0] - 1.0))]),
                                "discretize accepted a value below the first edge")
-        except CSEPException:
-            pass
+        except Exception:
+            pass      # reported as out of range (CSEPException today; the exception class is not part of the property)
         # catalog / forecast
         reg = regions.CartesianGrid2D.from_origins(numpy.array([[0., 0.], [0.1, 0.]]), dh=0.1, magnitudes=g.bins)
         cat = CSEPCatalog(data=[(str(i), 1000 * i, 0.05, 0.05, 0.0, float(m)) for i, m in enumerate(mags)], region=reg)
         idx = numpy.asarray(cat.get_mag_idx())
         ref = impl_bin1d(mags, g.bins, None, True)
-        cnt = cat.magnitude_counts(mag_bins=g.bins)
-        ok = numpy.array_equal(idx, ref) and numpy.array_equal(cnt, numpy.bincount(ref[ref >= 0], minlength=g.n))
+        cnt = numpy.asarray(cat.magnitude_counts(mag_bins=g.bins))
+        # judged by the property's oracle (inside the band either bin is allowed: another route to the index than bin1d_vec's is fine)
+        als = [allowed_exact(g, "f64", None, True, Fraction(float(v))) for v in mags]
+        single = all(len(a) == 1 for a in als)
+        ok = idx.shape == ref.shape and all(int(i) in a for i, a in zip(idx, als))
+        if ok and single:        # no magnitude in a band: the histogram is determined
+            ok = numpy.array_equal(cnt, numpy.bincount(ref[ref >= 0], minlength=g.n))
+        elif ok:
+            ok = cnt.shape == (g.n,) and int(round(float(cnt.sum()))) <= len(mags)
         if not ok:
             run.oracle_failure(dict(kind="api", grid=spec, what="get_mag_idx/magnitude_counts"),
-                               "catalog magnitude indices/counts differ from bin1d_vec(mags, bins, right_continuous=True)")
+                               "catalog magnitude indices / counts are not what the property allows for these magnitudes")
         fore = GriddedForecast(data=numpy.ones((2, g.n)), region=reg, magnitudes=g.bins)
-        inm = mags[ref >= 0]
+        sel = [k for k, a in enumerate(als) if -1 not in a]          # must be accepted
+        inm = mags[sel]
         gi = numpy.asarray(fore.get_magnitude_index(inm))
-        if not numpy.array_equal(gi, ref[ref >= 0]):
+        if gi.shape != inm.shape or not all(int(i) in als[k] for i, k in zip(gi, sel)):
             run.oracle_failure(dict(kind="api", grid=spec, what="get_magnitude_index"),
-                               "forecast magnitude index differs from bin1d_vec(..., right_continuous=True)")
+                               "forecast magnitude index is not one the property allows")
         try:
             fore.get_magnitude_index([float(g.e64[0]) - 1.0])
             run.oracle_failure(dict(kind="api", grid=spec, what="get_magnitude_index below range"),
                                "a magnitude below the first edge was accepted")
-        except ValueError:
+        except Exception:
             pass
         run.evaluations += 3
         run.count("api_level_checks")
@@ -975,6 +1223,17 @@ def run_case(ctx, case):
     elif kind == "cleaner":
         check_cleaner(ctx, case["S"], case["D"], case["m"], case["cnt"], case.get("off", 0),
                       fn=case.get("fn", "cleaner_range"), tag=case.get("tag", "corpus"), asint=case.get("asint", False))
+    elif kind == "grid":
+        g = build_grid(case["grid"])
+        run_grid(ctx, g, pds=("f64",), n_model=100, tag="replay")
+        guarded(ctx, dict(kind="grid", grid=case["grid"]), scalar_checks, ctx, g)
+    elif kind == "cleaner-args":
+        for i in range(250):
+            guarded(ctx, dict(kind="cleaner-args", seed_index=i), rand_cleaner, ctx, ctx.rng, 2000)
+    elif kind == "cleaner-float":
+        check_cleaner_float(ctx, float(case["start"]), float(case["end"]), float(case["h"]), case.get("tag", "corpus"))
+    elif kind == "numdec":
+        check_numdec(ctx, 50)
     elif kind == "disc":
         g = build_grid(case["grid"])
         pd = case.get("pd", "f64")
@@ -1053,16 +1312,19 @@ def tables_match_source(ctx):
 
 def decreasing_grid_raises(ctx):
     run = ctx.run
+    # a decreasing grid is outside the property ("given increasing … bin edges"): the current code raises ValueError (modelled);
+    # another exception, or a tree that sorts / accepts, is not judged
     try:
         impl_bin1d([1.0], [3.0, 2.0, 1.0], None, False)
-        run.oracle_failure(dict(kind="bin1d", grid=dict(kind="explicit", edges=["3.0", "2.0", "1.0"]), p=["1.0"], rc=False),
-                           "a decreasing grid was accepted (ValueError expected)")
+        run.count("decreasing-grid: accepted (not judged)")
     except ValueError:
-        pass
+        run.count("decreasing-grid: ValueError")
+    except Exception as e:
+        run.count("decreasing-grid: " + type(e).__name__ + " (not judged)")
     d = Driver()
     d.ask("c02_bin1d f64 f64 none 0 3,2,1 1")
     if d.run() != ["valueerror"]:
-        run.mismatch(dict(kind="decreasing"), "ValueError", "model did not raise")
+        raise RuntimeError("the model of bin1d_vec does not reject a decreasing grid (harness self-check)")
     run.evaluations += 1
 
 
@@ -1105,7 +1367,7 @@ def run(run, rng, tier):
         covered.append(spec.get("name", spec["kind"]) + ":" + spec.get("axis", "") + spec.get("dh", ""))
         run_grid(ctx, g, pds=("f64", "f32") if spec["kind"] == "mw" else ("f64",), n_model=150, tag="shipped")
         if spec["kind"] == "mw":
-            scalar_checks(ctx, g)
+            guarded(ctx, dict(kind="grid", grid=spec), scalar_checks, ctx, g)
             run_grid(ctx, g, pds=("i64",), n_model=60, tag="shipped-int")
     for name in ("italy_csep_region", "california_relm_region"):
         try:
@@ -1131,7 +1393,7 @@ def run(run, rng, tier):
         pds = ("f64",) if r < 0.7 else (("f64", "f32") if r < 0.85 else ("f64", "i64"))
         run_grid(ctx, g, pds=pds, n_model=100, tag="decimal")
         if i % 10 == 0:
-            scalar_checks(ctx, g)
+            guarded(ctx, dict(kind="grid", grid=spec), scalar_checks, ctx, g)
         if i % 7 == 0 and g.n > 1:   # tol override, a few ulps to 1e-6 of the step
             tol = float(g.hF) * rng.choice([1e-12, 1e-9, 1e-6])
             run_grid(ctx, g, pds=("f64",), tol=tol, n_model=60, tag="decimal-tol")
@@ -1171,8 +1433,10 @@ def run(run, rng, tier):
         run_grid(ctx, g, pds=pds, n_model=100, tag=kind)
     # cleaner_range / magnitude_bins against the decimal grid
     for i in range(250 if quick else 1200):
-        rand_cleaner(ctx, rng, 2000 if quick else 20000)
-    cleaner_fallback_probe(ctx, rng)
+        guarded(ctx, dict(kind="cleaner-args", seed_index=i), rand_cleaner, ctx, rng, 2000 if quick else 20000)
+    for i in range(60 if quick else 400):
+        guarded(ctx, dict(kind="cleaner-args", seed_index=i), rand_cleaner_float, ctx, rng)
+    check_numdec(ctx, 400 if quick else 4000)
     flush(ctx)
     run.extra["bitexact_agreement"] = f"{ctx.bitexact}/{ctx.bit_total}"
     run.extra["bitexact_differences"] = ctx.bit_diff
